@@ -3,12 +3,13 @@ from __future__ import annotations
 
 import json
 
+import reactivex
 from hypothesis import strategies as st
 
 from reactivex import operators as ops
 
 from vlib.core import FAIL, OK, SKIP, Check, HarnessError
-from vlib.difftools import coldify, dispose_tree, guard_all, first_diff, norm_tree, runaway, runtime_multiset, sort_intervals, src_key, tree_has_next
+from vlib.difftools import has_hot, coldify, dispose_tree, guard_all, first_diff, norm_tree, runaway, runtime_multiset, sort_intervals, src_key, tree_has_next
 from vlib.lab import Lab
 from vlib.pipes import OPS, Builder, s_count, s_dur1, s_inners, s_src, s_val
 from vlib.values import val
@@ -23,6 +24,11 @@ RULE = (
     "ticks 0..8 and optionally unsubscribing later; application either up front or lazily at the first subscribe. "
     "Check `connectable`: bare ops.publish() / ops.replay(n, window) / ops.publish_value(v) / ops.ref_count() / "
     "publish+ref_count pairs, with explicit connect()/disconnect at generated ticks interleaved with the subscriptions. "
+    "Check `compose`: operator objects built by composition - reactivex.compose / ops.compose of 1-3 table operators, nested "
+    "compositions, compose() with an empty stage - reused across sources. In all checks the build-time argument "
+    "sources are, in 2 cases of 5, taken from a pool shared by every factory call of the lab (the user hands the same "
+    "`other` observable to every call); half of those make every argument source HOT (classes shared-argument-sources, "
+    "hot-argument-source). "
     "World ONE applies the single operator object returned by one factory call to every source; world FRESH makes a "
     "new factory call with identical arguments for every source; both run the same plan in separate labs. Oracle "
     "(differential): for every subscriber the probe tree (notifications incl. window/group inner subscribers, ticks, "
@@ -34,7 +40,8 @@ RULE = (
 )
 ASSUMPTIONS = [
     "operator arguments that are user-owned stateful objects (an explicit Subject for multicast, an observer for do) are excluded, as the property's quantifier does",
-    "auxiliary sources inside operator arguments are cold/synchronous (hot specs are re-read as cold): they are created per factory call, so ONE shares a cold object that FRESH duplicates, which is behaviourally neutral only for cold sources",
+    "auxiliary sources inside operator arguments are either created per factory call - then they are cold/synchronous (hot specs re-read as cold), because ONE shares a cold object that FRESH duplicates, which is behaviourally neutral only for cold sources - or pooled so that every factory call of both worlds receives the same objects, in which case hot ones are sound and generated",
+    "auto_connect is a ConnectableObservable method, not an operator function object; multicast(subject_factory=...) without a mapper is not a valid call (the implementation asserts the mapper); do(observer)/multicast(subject) take a user-owned stateful object (an Observer stops after its first terminal), which the statement's quantifier excludes - none of these is generated",
     "while_do/do_while use a condition whose counter is keyed by the source it is given (user state per source, identical in both worlds) instead of the grammar's per-factory counter; window_when/buffer_when use a single closing timeline so the grammar's call counter is irrelevant",
     "everything still subscribed at tick 150 is disposed in both worlds; runs are discarded as inconclusive and counted when the scheduler dequeues >=95 items without advancing its clock (spin bump, C29), the work budget is exceeded, the Python stack exceeds 400 frames or a RecursionError shows up in a trace, or the FRESH world lets an exception escape the scheduler",
 ]
@@ -63,7 +70,47 @@ def _while_like(opname):
 LOCAL = {"while_do": _while_like("while_do"), "do_while": _while_like("do_while")}
 
 
+class PoolBuilder(Builder):
+    """Builder whose *build-time* argument sources come from a pool that lives as long as the lab: the first factory
+    call creates them, every later factory call with the same arguments receives the very same source objects (the
+    user passes the same `other` observable to every ops.merge(other) call).  Sources created later by callbacks
+    (inner factories) stay fresh per call.  With shared argument sources both worlds may soundly contain hot ones."""
+
+    def __init__(self, lab, pool):
+        super().__init__(lab)
+        self.pool = pool
+        self.i = 0
+        self.building = False
+
+    def src(self, spec):
+        if not self.building:
+            return super().src(spec)
+        if self.i >= len(self.pool):
+            self.pool.append(super().src(spec))
+        s = self.pool[self.i]
+        self.i += 1
+        return s
+
+
+def _builder(lab, share_aux):
+    if not share_aux:
+        return Builder(lab)
+    if not hasattr(lab, "_aux_pool"):
+        lab._aux_pool = []
+    return PoolBuilder(lab, lab._aux_pool)
+
+
 def _make_op(B, name, args):
+    if isinstance(B, PoolBuilder):
+        B.building = True
+        try:
+            return _make_op_inner(B, name, args)
+        finally:
+            B.building = False
+    return _make_op_inner(B, name, args)
+
+
+def _make_op_inner(B, name, args):
     if name in LOCAL:
         B.cur = name
         o = LOCAL[name](B, args)
@@ -207,11 +254,11 @@ def _judge(case, make_ops, culprit, cls, inp="any"):
         if a != b:
             return FAIL("source-subs|" + culprit, f"primary source #{i} subscription intervals: shared operator {a} vs fresh operators {b}; case={json.dumps(case)}", classes=cls)
     m = len(O["aux"][0])
-    if any(len(x) != m for x in F["aux"]):
+    if len(F["aux"][0]) != m or any(len(x) not in (0, m) for x in F["aux"]):
         raise HarnessError("aux source count differs between factory calls")
     for j in range(m):
         a = sort_intervals(O["aux"][0][j].subs)
-        b = sort_intervals([iv for x in F["aux"] for iv in x[j].subs])
+        b = sort_intervals([iv for x in F["aux"] if x for iv in x[j].subs])  # later calls create none when pooled
         if a != b:
             return FAIL("aux-source-subs|" + culprit, f"argument source #{j} {src_key(O['aux'][0][j])}: shared {a} vs union over fresh {b}; case={json.dumps(case)}", classes=cls)
     if runtime_multiset(O["runtime"]) != runtime_multiset(F["runtime"]):
@@ -230,9 +277,13 @@ def _run_ops(case):
     o = OPS[name]
 
     def make(lab):
-        return _make_op(Builder(lab), name, args)
+        return _make_op(_builder(lab, case.get("share_aux")), name, args)
 
     cls = ["op:" + name] + (["multicast"] if "multicast" in o.tags else []) + (["lazy-application"] if case.get("lazy") else [])
+    if case.get("share_aux"):
+        cls.append("shared-argument-sources")
+        if has_hot(args):
+            cls.append("hot-argument-source")
     return _judge(case, make, name, cls, o.inp)
 
 
@@ -260,8 +311,34 @@ def _plan(n, connects):
     return _p()
 
 
-def _fix_args(name, args):
-    args = coldify(args)
+BUILD_OS = {"merge", "concat", "zip", "combine_latest", "with_latest_from", "fork_join"}  # "os" = build-time sources
+
+
+def _hotify(name, args):
+    """Build-time argument sources become hot (timeline read as absolute ticks).  Spec lists handed to inner
+    factories (sources created per callback invocation: "os" of the other operators, "l", "r") are left alone."""
+
+    def hot(v):
+        if isinstance(v, dict) and set(v.keys()) == {"kind", "tl"}:
+            return {"kind": "hot", "tl": v["tl"]}
+        return v
+
+    out = {}
+    for k, v in args.items():
+        if k == "os" and name in BUILD_OS:
+            out[k] = [hot(x) for x in v]
+        elif k in ("os", "l", "r"):
+            out[k] = v
+        else:
+            out[k] = hot(v)
+    return out
+
+
+def _fix_args(name, args, share_aux=False):
+    if share_aux == 2:
+        args = _hotify(name, args)
+    elif not share_aux:
+        args = coldify(args)
     if name in ("window_when", "buffer_when"):
         args = dict(args, os=args["os"][:1])
     return args
@@ -272,9 +349,10 @@ def _ops_cases(name):
 
     @st.composite
     def _c(draw):
-        args = _fix_args(name, draw(o.args))
+        share = draw(st.sampled_from([0, 0, 0, 1, 2]))  # 0: fresh cold aux per factory call; 1: pooled as drawn; 2: pooled, all hot
+        args = _fix_args(name, draw(o.args), share)
         n = draw(st.integers(2, 3))
-        case = {"op": name, "args": args, "srcs": [draw(_prim) for _ in range(n)], "plan": draw(_plan(n, False)), "lazy": draw(st.booleans()), "inner": draw(st.sampled_from(["now", "now", "late"]))}
+        case = {"op": name, "args": args, "share_aux": share, "srcs": [draw(_prim) for _ in range(n)], "plan": draw(_plan(n, False)), "lazy": draw(st.booleans()), "inner": draw(st.sampled_from(["now", "now", "late"]))}
         if o.inp == "obs":
             case["pre"] = draw(s_inners(("cold", "cold", "sync")))
         return case
@@ -337,9 +415,52 @@ def _conn_cases(draw):
     return {"form": form, "args": draw(CONN_FORMS[form]), "srcs": [draw(_prim) for _ in range(n)], "plan": draw(_plan(n, explicit)), "lazy": draw(st.booleans()), "inner": "now"}
 
 
+# ---------------------------------------------------------------------------------------
+# check 3: operator objects built by composition (reactivex.compose / ops.compose / a reusable pipe fragment)
+
+COMPOSE_KINDS = ["compose", "nested", "ops.compose", "single"]
+
+
+def _run_compose(case):
+    chain = case["chain"]
+
+    def make(lab):
+        B = _builder(lab, case.get("share_aux"))
+        fs = [_make_op(B, name, args) for name, args in chain]
+        k = case["kind"]
+        if k == "compose":
+            return reactivex.compose(*fs)
+        if k == "ops.compose":
+            return ops.compose(*fs)
+        if k == "nested":
+            return reactivex.compose(reactivex.compose(*fs[:1]), reactivex.compose(*fs[1:]))
+        if k == "single":
+            return reactivex.compose(fs[0]) if len(fs) == 1 else reactivex.compose(reactivex.compose(), *fs)
+        raise HarnessError(f"compose kind {k}")
+
+    cls = ["kind:" + case["kind"], f"stages:{len(chain)}"] + (["multicast"] if any("multicast" in OPS[n].tags for n, _ in chain) else [])
+    if case.get("share_aux"):
+        cls.append("shared-argument-sources")
+        if has_hot(chain):
+            cls.append("hot-argument-source")
+    return _judge(case, make, "compose:" + ",".join(sorted({n for n, _ in chain}))[:60], cls)
+
+
+@st.composite
+def _compose_cases(draw):
+    from vlib.pipes import pipelines
+
+    share = draw(st.sampled_from([0, 0, 0, 1, 2]))
+    pc = draw(pipelines(max_ops=3, min_ops=1, roots=["single"], max_len=1))
+    chain = [[n, _fix_args(n, a, share)] for n, a in pc["ops"]]
+    n = draw(st.integers(2, 3))
+    return {"kind": draw(st.sampled_from(COMPOSE_KINDS)), "chain": chain, "share_aux": share, "srcs": [draw(_prim) for _ in range(n)], "plan": draw(_plan(n, False)), "lazy": draw(st.booleans()), "inner": "now"}
+
+
 def checks(tier):
     # one check per operator form so that every form gets the same budget (a single sampled_from over the
     # table was measured to give some forms 2 cases and others 130)
     out = [Check("op." + name, _run_ops, strategy=_ops_cases(name), examples={"quick": 48, "thorough": 3200}, shards={"quick": 8, "thorough": 16}) for name in sorted(OPS)]
     out.append(Check("connectable", _run_conn, strategy=_conn_cases(), examples={"quick": 1600, "thorough": 16 * 6000}, shards={"quick": 8, "thorough": 16}))
+    out.append(Check("compose", _run_compose, strategy=_compose_cases(), examples={"quick": 1200, "thorough": 16 * 5000}, shards={"quick": 8, "thorough": 16}))
     return out
